@@ -554,6 +554,8 @@ func runC14(c *Check, a *Analysis) {
 	ruleDialResult(c, a, "R-DIAL-RESULT")
 	ruleReplaceSlot(c, a, "R-REPLACE-SLOT")
 	ruleFreshLookup(c, a, "R-FRESH-LOOKUP")
+	ruleMarkDeadExact(c, a, "R-MARK-DEAD")
+	ruleRefusalValue(c, a, "R-MARK-DEAD")
 	c.Rule("R-ERRDIAL", "every non-nil error returned by newPersistConn, and by getConn for an empty address, is the ErrDial value (getConn otherwise forwards newPersistConn's error)", 3)
 	eachInstr(np, func(in ssa.Instruction) {
 		r, ok := in.(*ssa.Return)
@@ -653,6 +655,7 @@ func runC15(c *Check, a *Analysis) {
 	c.Rule("R-CLOSE-ALL", "Transport.Close (past its once/running guards) ranges over conns and idleConns closing every element, replaces both maps and closes t.done on every path; run exits on <-t.done; the counted loops over pool containers start at element 0 and the drain of an idle queue is not skipped when it is non-empty", 6)
 	ruleDrainLoops(c, a, "R-CLOSE-ALL")
 	ruleShrinkingBound(c, a, "R-CLOSE-ALL")
+	ruleFailedOpenUnregisters(c, a, "R-NUMCALLS")
 	cl := p.Fn("(*Transport).Close")
 	if cl == nil {
 		c.Undecided("R-CLOSE-ALL", "(*Transport).Close not found")
